@@ -86,7 +86,7 @@ def __matching__(text: str) -> int:
     return -1
 
 
-__SPECIAL_TOKENS = " ()"
+__SPECIAL_TOKENS = " ()'"
 
 
 def __next_token__(text: str) -> Tuple[str, int, int]:
